@@ -316,3 +316,29 @@ func paramIndex(fn *ssa.Function, p *ssa.Parameter) int {
 
 func isTimeType(t types.Type) bool    { return types.TypeString(t, nil) == "time.Time" }
 func isStringSlice(t types.Type) bool { return types.TypeString(t, nil) == "[]string" }
+
+// operandsOfType: the operands of call whose type satisfies pred, wherever they stand among its arguments, and the
+// fields of that type of a parameter object (an unexported struct literal) built for the call.
+func operandsOfType(call *ssa.Call, pred func(types.Type) bool) []ssa.Value {
+	var out []ssa.Value
+	for _, arg := range call.Call.Args {
+		if pred(arg.Type()) {
+			out = append(out, arg)
+			continue
+		}
+		st := unexportedStruct(arg.Type())
+		ld, isLd := arg.(*ssa.UnOp)
+		if st == nil || !isLd || ld.Op != token.MUL {
+			continue
+		}
+		for f := 0; f < st.NumFields(); f++ {
+			if !pred(st.Field(f).Type()) {
+				continue
+			}
+			if v := literalFieldValue(ld.X, []int{f}, 0); v != nil {
+				out = append(out, v)
+			}
+		}
+	}
+	return out
+}
